@@ -29,6 +29,24 @@ theorem skipSep_cons {c : Char} (cs : List Char) (h : c ≠ '-') : skipSep (c ::
 theorem skipSep_nil : skipSep [] = [] := by
   unfold skipSep; rfl
 
+theorem mem_nameTable_unitsOnly {lit : List Char} {u : UnitKey} {b : Int}
+    (h : (lit, WordAction.unit u b) ∈ Generated.unitsOnly) : (lit, u, b) ∈ nameTable := by
+  unfold nameTable
+  simp only [List.mem_filterMap, List.mem_append]
+  exact ⟨(lit, .unit u b), Or.inl h, rfl⟩
+
+theorem mem_nameTable_combined {lit : List Char} {u : UnitKey} {b : Int}
+    (h : (lit, WordAction.unit u b) ∈ Generated.combined) : (lit, u, b) ∈ nameTable := by
+  unfold nameTable
+  simp only [List.mem_filterMap, List.mem_append]
+  exact ⟨(lit, .unit u b), Or.inr h, rfl⟩
+
+theorem mem_prefixTable {lit : List Char} {q : Int} {alone : Option (UnitKey × Int)}
+    (h : (lit, WordAction.pfx q alone) ∈ Generated.combined) : (lit, q) ∈ prefixTable := by
+  unfold prefixTable
+  simp only [List.mem_filterMap]
+  exact ⟨(lit, .pfx q alone), h, rfl⟩
+
 end Anything.Spec.Words
 
 namespace Anything.UnitWord
@@ -57,5 +75,21 @@ theorem parseAll_cons {fuel : Nat} {s : List Char} {l : List (Int × UnitKey)}
           simp only [Option.some.injEq] at h
           exact ⟨rest, p, u, tl, hp, hlt, htl, h.symm⟩
       · simp at h
+
+theorem parse_nil : parse [] = none := by
+  simp [parse, phase1]
+
+/-- A word that one `parse` consumes completely is a one-piece word. -/
+theorem parseWord_single {s : List Char} {p : Int} {u : UnitKey} (h : parse s = some ([], p, u)) :
+    parseWord s = some [(p, u)] := by
+  cases s with
+  | nil => rw [parse_nil] at h; simp at h
+  | cons c cs =>
+    simp [parseWord, parseAll, h]
+
+/-- Checking a list in two chunks. -/
+theorem all_of_take_drop {α : Type} (f : α → Bool) (n : Nat) (l : List α)
+    (h1 : (l.take n).all f = true) (h2 : (l.drop n).all f = true) : l.all f = true := by
+  rw [← List.take_append_drop n l, List.all_append, h1, h2]; rfl
 
 end Anything.UnitWord
